@@ -2,6 +2,7 @@
 //! real parser + compiler + VM against a reference interpreter written in the harness.
 mod c22;
 mod c23;
+mod c24;
 mod c30;
 mod gen;
 mod lang;
@@ -9,9 +10,11 @@ mod vmrun;
 
 fn main() {
     let args = mcx::parse_args();
+    mcx::quiet_panics();
     match args.prop.as_str() {
         "C22" => c22::run(&args),
         "C23" => c23::run(&args),
+        "C24" => c24::run(&args),
         "C30" => c30::run(&args),
         p => mcx::machinery_error(&format!("pol-check does not serve {p}")),
     }
